@@ -31,6 +31,7 @@ void* trampoline(void* p)
 } // namespace
 
 void init() {}
+void set_malloc_fill(int) {} // (the real-thread layer keeps ThreadSanitizer's allocator)
 
 void run_tasks(int n, void (*fn)(int, void*), void* arg, const Config& cfg)
 {
